@@ -22,6 +22,7 @@ import VrlModel.Driver.C32
 import VrlModel.Driver.C33
 import VrlModel.Driver.C34
 import VrlModel.Driver.C03
+import VrlModel.Driver.C08d
 import VrlModel.Driver.C03Decl
 import VrlModel.Driver.Search
 
@@ -51,6 +52,7 @@ def handlers : List (String → List String → Option String) := [
   Driver.C33.handle,
   Driver.C34.handle,
   Driver.C03.handle,
+  Driver.C08d.handle,
   Driver.C03Decl.handle,
   Driver.SearchOps.handle
 ]
